@@ -444,3 +444,32 @@ func vh_C13_cfgflip() {
 		}
 	}
 }
+
+// vh_C13_latest_order: latest-publication mode with up to 5 publications of
+// symbolic one-byte keys in ONE batch (no other event kinds), flushed by
+// Close(true): only the newest publication of each key, in last-update order.
+// Deeper in keys per batch than vh_C13_latest, which spends its bound on event
+// kinds.
+func vh_C13_latest_order() {
+	st := &c13state{latest: true, closeFlush: true}
+	st.chans = []*c13chan{{name: "x"}}
+	pcw := newPerChannelWriter(st.flush)
+	cfg := ChannelBatchConfig{FlushLatestPublication: true, MaxDelay: c13Delay}
+	n := 3 + vChoice("npubs", vParam("c13_order_extra", 2)+1) // 3..5
+	for k := 0; k < n; k++ {
+		it := queue.Item{
+			Channel:   "x",
+			FrameType: protocol.FrameTypePushPublication,
+			Key:       vString("key", 1),
+			Data:      []byte{byte(k), vByte("payload")},
+		}
+		st.chans[0].added = append(st.chans[0].added, it)
+		pcw.Add(it, "x", cfg)
+	}
+	st.phase = 1
+	pcw.Close(true)
+	st.phase = 2
+	vAssert(st.nflush == 1, "one flush delivers the batch")
+	vCover(st.coalesc, "coalesced")
+	vCover(n == 5, "five-publications")
+}
